@@ -252,6 +252,31 @@ def run(pid, spec, args, seed, t0, outdir, scratch):
     return 0
 
 
+def scan_assumes(unit_names):
+    """Mechanical scan (DESIGN 4.3): every __CPROVER_assume in the hand-written files of the units of this run.
+    Assumes are only allowed in harness preconditions (lemmas/) and dependency stubs (stubs/, contracts/ stubs)."""
+    import glob
+    files = set()
+    for un in unit_names:
+        try:
+            u = U.get_unit(un, {})
+        except Exception:
+            continue
+        for rel in [u.contracts, u.harness] + list(u.stubs) + list(u.pre_includes):
+            files.add(os.path.join(VERIF, rel))
+    for extra in ("stubs/prelude.h", "stubs/stream.h", "stubs/backend.h", "stubs/backend_io.h", "contracts/layer_common.h", "contracts/binary_io.h"):
+        files.add(os.path.join(VERIF, extra))
+    out = []
+    for f in sorted(files):
+        try:
+            for i, line in enumerate(open(f), 1):
+                if "__CPROVER_assume" in line:
+                    out.append("%s:%d: %s" % (os.path.relpath(f, VERIF), i, line.strip()[:160]))
+        except OSError:
+            pass
+    return out
+
+
 def recorded_seeded(pid):
     """Outcome of this property's check on the seeded changes, AS RECORDED by the last run of tools/seeded_run_all.py
     (seeded/results.json); not re-executed by this run -- it tests the machinery and is not evidence for the property."""
@@ -330,6 +355,8 @@ def write_evidence(pid, spec, args, seed, t0, results, static_facts, undecided, 
             "supporting_static_facts": static_facts,
             "known_finding_obligations": len(known_hits),
             "known_findings_matched": [{"cell": c, "obligation": o, "what": k["what"]} for k, c, o in known_hits],
+            "assume_statements_scanned": scan_assumes(sorted(set(r.get("unit") for r in results if r.get("unit")))),
+            "obligation_counting": "obligations = every property cbmc generated for the cell: contract pre/postconditions, frame (assigns) conditions, loop-invariant base/step/decreases, unwinding assertions, safety checks (also those inside contract expressions), library asserts, dfcc bookkeeping; the reachability canary is excluded and must be refuted",
             "not_covered": spec.get("not_covered", []),
             "recorded_seeded_results": recorded_seeded(pid),
             "partial_run": partial,
